@@ -739,6 +739,40 @@ func genC14(e *emitter) {
 			matchCallers = append(matchCallers, fd.Name.Name)
 		}
 	})
+	// informational (no theorem pins them: pruning entries nobody can observe would be legitimate, see
+	// c14_prune_unobservable): what the periodic cleanup deletes, and who writes the TOTP limiter table
+	var cleanupDeletes, tableWriters []string
+	p.eachFunc(func(fd *ast.FuncDecl) {
+		writes := false
+		ast.Inspect(fd.Body, func(n ast.Node) bool {
+			switch x := n.(type) {
+			case *ast.CallExpr:
+				if id, ok := x.Fun.(*ast.Ident); ok && id.Name == "delete" && len(x.Args) == 2 {
+					if fd.Name.Name == "performStateCleanup" {
+						cleanupDeletes = append(cleanupDeletes, c14sel(x.Args[0]))
+					}
+					if strings.HasSuffix(c14sel(x.Args[0]), ".totpLocalRateLimit") {
+						writes = true
+					}
+				}
+			case *ast.AssignStmt:
+				for _, l := range x.Lhs {
+					if ix, ok := l.(*ast.IndexExpr); ok && strings.HasSuffix(c14sel(ix.X), ".totpLocalRateLimit") {
+						writes = true
+					}
+					if strings.HasSuffix(c14sel(l), ".totpLocalRateLimit") {
+						writes = true
+					}
+				}
+			}
+			return true
+		})
+		if writes {
+			tableWriters = append(tableWriters, fd.Name.Name)
+		}
+	})
+	sort.Strings(cleanupDeletes)
+	sort.Strings(tableWriters)
 	sort.Slice(guards, func(i, j int) bool { return guards[i].Func < guards[j].Func })
 	sort.Strings(authCallers)
 	sort.Strings(totpValidate)
@@ -819,5 +853,6 @@ func genC14(e *emitter) {
 		"limit_check": sh, "limiter_config": cfg, "totp_validate_sites": totpValidate,
 		"validate_user_totp_callers": totpCallers, "totp_matched_counter": mt,
 		"totp_matched_counter_callers": matchCallers,
+		"cleanup_deletes":              cleanupDeletes, "totp_limiter_table_writers": tableWriters,
 	}
 }
